@@ -156,6 +156,50 @@ fn all_error_spans(p: &Program<'_>, load: Option<&LoadError>, eval: Option<&Eval
     v
 }
 
+/// (line, column) named by the first `-->` header of a rendered report and (line, column) of the
+/// first single-line `^` annotation below it — the rendering's own statement of where the
+/// primary span starts. None when there is no single-line caret annotation in the first block.
+pub fn header_and_caret(text: &str) -> Option<((usize, usize), (usize, usize))> {
+    let lines: Vec<&str> = text.lines().collect();
+    let h = lines.iter().position(|l| l.trim_start().starts_with("--> "))?;
+    let loc = lines[h].trim_start().trim_start_matches("--> ");
+    let mut it = loc.rsplitn(3, ':');
+    let c: usize = it.next()?.trim().parse().ok()?;
+    let l: usize = it.next()?.trim().parse().ok()?;
+    let mut cur: Option<usize> = None;
+    for line in &lines[h + 1..] {
+        if line.starts_with("note") || line.starts_with("error") || line.trim_start().starts_with("--> ") {
+            break;
+        }
+        let Some(bar) = line.find('|') else { continue };
+        let gutter = line[..bar].trim();
+        let rest = &line[bar + 1..];
+        if let Ok(n) = gutter.parse::<usize>() {
+            if rest.starts_with(" /") || rest.starts_with(" |") {
+                return None; // multi-line span layout
+            }
+            cur = Some(n);
+            continue;
+        }
+        if !gutter.is_empty() {
+            continue;
+        }
+        let body = rest.strip_prefix(' ').unwrap_or(rest);
+        if let Some(pos) = body.find('^') {
+            // markers of other labels (`-`, `|`) may precede it on the same row; `_` and `/`
+            // belong to multi-line spans
+            if body[..pos].chars().all(|ch| matches!(ch, ' ' | '-' | '|')) {
+                return Some(((l, c), (cur?, body[..pos].chars().count() + 1)));
+            }
+            return None;
+        }
+        if body.contains('_') || body.contains('/') {
+            return None;
+        }
+    }
+    None
+}
+
 pub fn check_source(src: &[u8], rep: &mut Report, what: &str) {
     rep.evaluations += 1;
     rep.traces_validated += 1;
@@ -278,6 +322,21 @@ pub fn check_source(src: &[u8], rep: &mut Report, what: &str) {
                             format!("{what} {:?}: report names {path}, error spans start at {:?} (primary {:?})", String::from_utf8_lossy(src), spans.iter().map(|s| ref_line_col(src, s.0)).collect::<Vec<_>>(), primary.map(|p| ref_line_col(src, p.0))),
                             case(),
                         );
+                    }
+                }
+                // the header names the position of the `^` (primary) annotation, not of a `-` one
+                if !colored {
+                    if let Some(((hl, hc), (cl, cc))) = header_and_caret(&text) {
+                        rep.count("header_vs_caret_compared", 1);
+                        let line_text = String::from_utf8_lossy(src).lines().nth(cl.saturating_sub(1)).map(|x| x.to_string()).unwrap_or_default();
+                        let plain_prefix = line_text.chars().take(cc.max(hc)).all(|ch| ch.is_ascii() && !ch.is_ascii_control());
+                        if hl != cl || (plain_prefix && hc != cc) {
+                            rep.violation(
+                                "C16/header-does-not-name-the-primary-span",
+                                format!("{what} {:?}: header names {hl}:{hc}, the `^` annotation is at {cl}:{cc}", String::from_utf8_lossy(src)),
+                                case(),
+                            );
+                        }
                     }
                 }
                 if primary.is_some() && paths.is_empty() {
